@@ -199,7 +199,7 @@ PROPS.update({
         "steps": [MAIN, fast(scale=50), miri(mode="miri"), asan(scale=50), valgrind(mode="valgrind")],
         "required_buckets": {"all": ["terminator:LF-at-start", "terminator:LF-at-end", "terminator:LF-doubled", "terminator:CR-at-start",
                                      "terminator:CR-at-end", "terminator:CR-doubled", "terminator:CRLF-at-start", "terminator:CRLF-at-end",
-                                     "terminator:CRLF-doubled", "order:late-line-first", "order:request-after-exhaustion", "order:clone-midway",
+                                     "terminator:CRLF-doubled", "order:late-line-first", "order:request-after-exhaustion", "order:clone-midway", "order:slices-interleaved",
                                      "slice:astral-char-inside-slice", "slice:line-shorter-than-c+n->None", "slice:extreme-triple",
                                      "slice:column-inside-surrogate-pair(both readings accepted)", "empty-text"]},
         "assumptions": COMMON_ASSUME + ["a column that falls on the second unit of a surrogate pair may or may not include that character (both readings accepted)"],
